@@ -199,7 +199,7 @@ def run(ctx):
     RICH_FUT = '{"noop", "raise", "addcb"}'
     ctx.mc("loop", "IOLoopSched", "MC_IOLoopSched.cfg",
            overrides=ctx.pick({}, {"KindsCb": RICH_CB, "KindsTo": RICH_TO, "KindsFut": RICH_FUT, "Delays": "{0, 1, 2}",
-                                   "MaxNow": 3, "MaxIter": 4}),
+                                   "MaxNow": 2, "MaxIter": 4}),
            required_actions=["AddCallback", "AddTimeout", "AddFuture", "Resolve", "RemoveTimeout", "Advance", "Iterate"])
     runs = ctx.pick([{}],
                     [{"KindsCb": RICH_CB, "KindsTo": RICH_TO, "KindsFut": RICH_FUT},
@@ -240,7 +240,8 @@ def run(ctx):
 def replay(ctx, rec):
     d = rec["detail"]
     if "path" in d:
-        r = sched_replayer(d["extra"], d["path"])
+        fn = runsync_replayer if d["path"] and d["path"][0]["act"] == "run_sync" else sched_replayer
+        r = fn(d["extra"], d["path"])
         print("replay:", "diverges " + jdump(r) if r else "follows the specification")
         return 1 if r else 0
     print("trace replays are validated with: ./check C38 (trace stored in the replay file)")
